@@ -90,6 +90,94 @@ pub fn name_probe_files() -> Vec<String> {
     out
 }
 
+/// Large files with exactly one planted violation: the single-violation neighbourhood of four valid files that are
+/// large in one dimension (k variants of one enum, k nonterminals, k terminals, k fields), the violation planted
+/// at every pair of positions (i, j) from a set of boundary indices (0, 1, 2, 9, 10, 11, 15, 16, 17, ... 255, 256,
+/// 257, k-2, k-1). Checks that a rule is enforced *everywhere* in a long list, not only near its beginning.
+pub fn scaled_invalid_files(deep: bool) -> Vec<String> {
+    let sizes: Vec<usize> = if deep { vec![12, 17, 18, 33, 34, 65, 66, 129, 130, 257, 258, 343] } else { vec![17, 33, 65, 258] };
+    let mut out = vec![];
+    for &k in &sizes {
+        let mut b: Vec<usize> = [0usize, 1, 2, 8, 9, 10, 11, 15, 16, 17, 31, 32, 33, 63, 64, 65, 127, 128, 129, 255, 256, 257].iter().copied().filter(|x| *x < k).collect();
+        b.extend([k - 2, k - 1]);
+        b.sort();
+        b.dedup();
+        let digits = |i: usize| format!("$T{} $T{} $T{}", i / 49, i / 7 % 7, i % 7);
+        // F1: one enum with k variants, pairwise different symbol sequences
+        let f1 = |vname: &dyn Fn(usize) -> String, vfields: &dyn Fn(usize) -> String| -> String {
+            let mut s = String::from("start E\nenum E {\n");
+            for i in 0..k {
+                s += &format!("    {}({})\n", vname(i), vfields(i));
+            }
+            s += "}\nstruct Other($T0)\nterminal Tok {\n";
+            for t in 0..7 {
+                s += &format!("    $T{t}: ()\n");
+            }
+            s += "}\n";
+            s
+        };
+        // F2: k nonterminals ; F3: k terminals
+        let f23 = |nname: &dyn Fn(usize) -> String, nfield: &dyn Fn(usize) -> String, tname: &dyn Fn(usize) -> String| -> String {
+            let mut s = String::from("start N0\n");
+            for i in 0..k {
+                s += &format!("struct {}({})\n", nname(i), nfield(i));
+            }
+            s += "terminal Tok {\n";
+            for i in 0..k {
+                s += &format!("    ${}: ()\n", tname(i));
+            }
+            s += "}\n";
+            s
+        };
+        // F4: one struct with k named fields
+        let f4 = |fname: &dyn Fn(usize) -> String, fsym: &dyn Fn(usize) -> String| -> String {
+            let mut s = String::from("start A\nstruct A {\n");
+            for i in 0..k {
+                s += &format!("    {}: {}\n", fname(i), fsym(i));
+            }
+            s += "}\nstruct B($T)\nterminal Tok {\n    $T: ()\n}\n";
+            s
+        };
+        let v = |i: usize| format!("V{i}");
+        let nn = |i: usize| format!("N{i}");
+        let tn = |i: usize| format!("T{i}");
+        let nf = |_: usize| "$T0".to_string();
+        out.push(f1(&v, &digits));
+        out.push(f23(&nn, &nf, &tn));
+        out.push(f4(&|i| format!("f{i}"), &|_| "$T".to_string()));
+        if k > 343 {
+            continue;
+        }
+        for &j in &b {
+            // violations at one position j
+            out.push(f1(&|i| if i == j { format!("v{i}") } else { v(i) }, &digits)); // lower-case variant name
+            out.push(f1(&v, &|i| if i == j { "$Zz $T0".to_string() } else { digits(i) })); // undefined terminal
+            out.push(f1(&v, &|i| if i == j { "Zz $T0".to_string() } else { digits(i) })); // undefined nonterminal
+            out.push(f1(&v, &|i| if i == j { "$Other".to_string() } else { digits(i) })); // a nonterminal's name used as a terminal
+            out.push(f23(&|i| if i == j { format!("n{i}") } else { nn(i) }, &nf, &tn)); // lower-case nonterminal
+            out.push(f23(&nn, &|i| if i == j { "Zz".to_string() } else { nf(i) }, &tn)); // undefined nonterminal
+            out.push(f23(&nn, &nf, &|i| if i == j { format!("t{i}") } else { tn(i) })); // lower-case terminal
+            out.push(f23(&|i| if i == j { "Tok".to_string() } else { nn(i) }, &nf, &tn)); // nonterminal named like the terminal enum
+            out.push(f4(&|i| if i == j { format!("F{i}") } else { format!("f{i}") }, &|_| "$T".to_string())); // upper-case field name
+            out.push(f4(&|i| format!("f{i}"), &|i| if i == j { "$Zz".to_string() } else { "$T".to_string() })); // undefined terminal in a field
+            out.push(f4(&|i| format!("f{i}"), &|i| if i == j { "C".to_string() } else { "$T".to_string() })); // undefined nonterminal in a field
+            for &i0 in &b {
+                if i0 >= j {
+                    continue;
+                }
+                // violations that involve two positions i0 < j
+                out.push(f1(&|i| if i == j { v(i0) } else { v(i) }, &digits)); // variant name clash
+                out.push(f1(&v, &|i| if i == j { digits(i0) } else { digits(i) })); // symbol sequence clash
+                out.push(f23(&|i| if i == j { nn(i0) } else { nn(i) }, &nf, &tn)); // duplicate nonterminal
+                out.push(f23(&nn, &nf, &|i| if i == j { tn(i0) } else { tn(i) })); // duplicate terminal
+                out.push(f23(&|i| if i == j { tn(i0) } else { nn(i) }, &nf, &tn)); // nonterminal named like terminal i0
+                out.push(f23(&nn, &nf, &|i| if i == j { nn(i0) } else { tn(i) })); // terminal named like nonterminal i0
+            }
+        }
+    }
+    out
+}
+
 #[derive(Debug, PartialEq, Eq)]
 pub enum Verdict {
     Fine,
@@ -247,6 +335,30 @@ pub fn run(ctx: &Ctx) -> Outcome {
         })
         .collect();
     for a in rel_accs {
+        acc.merge(a);
+    }
+    // large files with one planted violation at boundary positions
+    let scaled = scaled_invalid_files(ctx.tier == Tier::Thorough);
+    let scaled_accs: Vec<Acc> = scaled
+        .par_chunks(16)
+        .map(|chunk| {
+            let mut a = Acc::default();
+            for src in chunk {
+                a.inc("files");
+                a.inc("large files with one planted violation (or none) at boundary positions");
+                match check_source(src, &mut a) {
+                    Verdict::Violation(what, e, o) => {
+                        let shown: String = if src.len() > 600 { format!("{} ... ({} bytes)", src.chars().take(200).collect::<String>(), src.len()) } else { src.clone() };
+                        a.finding(Finding::new("validate_case", json!({"source": src}), format!("{what} — source {shown:?}"), e, o))
+                    }
+                    Verdict::NotSyntacticallyValid => a.self_check_errors.push(format!("reference self-check: the reference front end rejects a scaled file ({} bytes)", src.len())),
+                    Verdict::Fine => {}
+                }
+            }
+            a
+        })
+        .collect();
+    for a in scaled_accs {
         acc.merge(a);
     }
     // the repository's own should-fail corpus and examples
